@@ -1,0 +1,20 @@
+//go:build verif
+
+package acme
+
+import "time"
+
+// Hook for the C18 verification harness (/verif). Add-only; never built without -tags verif.
+
+// VerifSetClientTimeout sets the timeouts of a validation client created by
+// NewClient (the HTTP client's and the dialer's), so that the bounded-time
+// behaviour of the real client can be observed without waiting 30 s per peer.
+func VerifSetClientTimeout(c Client, d time.Duration) bool {
+	cl, ok := c.(*client)
+	if !ok {
+		return false
+	}
+	cl.http.Timeout = d
+	cl.dialer.Timeout = d
+	return true
+}
